@@ -25,6 +25,9 @@ import (
 type HCase struct {
 	T     *gen.TD `json:"t"`             // names, flags and validators under `config` / `validate`
 	Alt   *gen.TD `json:"alt,omitempty"` // the same Go structure with the names, flags and validators under `alt` / `strict` (nil: no second tag sets)
+	// dynamic types of the typed values the interfaces of the pre-filled values hold (as in Case); they carry tags
+	// under `config` / `validate` only
+	Dyn []*gen.TD `json:"dyn,omitempty"`
 	Steps []Step  `json:"steps"`
 }
 
@@ -72,6 +75,9 @@ func (c *HCase) describe(upto int, typ reflect.Type) string {
 		}
 		pre := reflect.New(typ)
 		c.T.Set(pre.Elem(), s.Pre)
+		if len(c.Dyn) > 0 {
+			(&Case{Dyn: c.Dyn}).fill(c.T, pre.Elem(), s.Pre, false)
+		}
 		target := "a new target, pre-filled " + showV(pre.Elem())
 		if s.Over {
 			target = "the target of the previous call if that call succeeded, else " + target
@@ -85,13 +91,44 @@ func (c *HCase) describe(upto int, typ reflect.Type) string {
 	return b.String()
 }
 
+// dynViews returns the dynamic types of the interface-held values as a call with these selections reads them (they
+// carry tags under `config` / `validate` only) and the registry from Go types to these views.
+func (c *HCase) dynViews(ts, vs int) (views []*gen.TD, reg dynReg, ok bool) {
+	if len(c.Dyn) == 0 {
+		return nil, nil, true
+	}
+	base, ok := (&Case{Dyn: c.Dyn}).registry()
+	viewOf := map[*gen.TD]*gen.TD{}
+	for _, d := range c.Dyn {
+		v := makeView(d, nil, ts, vs)
+		views = append(views, v)
+		for {
+			viewOf[d] = v
+			if d.Kind != "ptr" {
+				break
+			}
+			d, v = d.Elem, v.Elem
+		}
+	}
+	reg = dynReg{}
+	for t, d := range base {
+		reg[t] = viewOf[d]
+	}
+	return views, reg, ok
+}
+
+// provenance classes of a single call that are also counted jointly with the tag set the call selects
+var jointClasses = []string{"decided by a pre-filled default", "decided by an InitDefaults value", "decided behind a pointer", "decided inside a collection",
+	"decided in an inline field", "decided by a tag", "decided by Validate()", "decided through an interface", "verdict: rejected", "verdict: accepted"}
+
 func runHist(c HCase, r *runlog.R) error {
-	if c.T == nil || c.T.Kind != "struct" || len(c.Steps) == 0 || (c.Alt != nil && !sameStructure(c.T, c.Alt)) {
+	if c.T == nil || len(c.Steps) == 0 || (c.Alt != nil && !sameStructure(c.T, c.Alt)) {
 		r.Class("discarded: malformed case")
 		r.Discard()
 		return nil
 	}
 	realT, twinT := buildType(c.T, c.Alt, false), buildType(c.T, c.Alt, true)
+	filler := &Case{Dyn: c.Dyn}
 	rec := &stepRec{classes: map[string]bool{}, excluded: map[string]bool{}}
 	var prev outcome
 	var prevCfg *ucfg.Config
@@ -103,12 +140,18 @@ func runHist(c HCase, r *runlog.R) error {
 		st := &c.Steps[i]
 		ts, vs := st.sels()
 		view := makeView(c.T, c.Alt, ts, vs)
+		dyn, reg, unambiguous := c.dynViews(ts, vs)
+		if !unambiguous {
+			r.Class("discarded: ambiguous dynamic types")
+			r.Discard()
+			return nil
+		}
 		extra, text := tagOptions(st.Tag, st.VTag, st.VFirst)
 		if st.Sep {
 			extra = append(extra, ucfg.PathSep("."))
 			text += ` PathSep(".")`
 		}
-		cl := &call{T: view, Pre: st.Pre, Cfg: st.Cfg, VarExp: st.VarExp, Policy: st.Policy, extra: extra, extraText: text, realT: realT}
+		cl := &call{T: view, Pre: st.Pre, Cfg: st.Cfg, VarExp: st.VarExp, Policy: st.Policy, Dyn: dyn, reg: reg, extra: extra, extraText: text, realT: realT}
 		over := st.Over && i > 0 && !prev.discarded && prev.unpacked
 		if over {
 			realPrev, twinPrev := prev.real, prev.twin
@@ -129,6 +172,9 @@ func runHist(c HCase, r *runlog.R) error {
 				}
 				p := reflect.New(typ)
 				c.T.Set(p.Elem(), st.Pre)
+				if len(c.Dyn) > 0 {
+					filler.fill(c.T, p.Elem(), st.Pre, twin)
+				}
 				return p
 			}
 		}
@@ -136,16 +182,20 @@ func runHist(c HCase, r *runlog.R) error {
 		if sameCfg {
 			cl.cfg = prevCfg
 		}
-		rec.discarded = false
-		out, err := runCall(cl, rec)
+		one := &stepRec{classes: map[string]bool{}, excluded: rec.excluded}
+		out, err := runCall(cl, one)
 		if err != nil {
 			return fmt.Errorf("call %d of a history of %d Unpack calls: %v\n history:%s", i+1, len(c.Steps), err, c.describe(i, realT))
 		}
 		prev, prevCfg = out, out.cfg
+		for l := range one.classes {
+			rec.classes[l] = true
+		}
 		if out.discarded {
 			continue
 		}
 		evaluated++
+		rec.nontrivial = rec.nontrivial || one.nontrivial
 		verdicts[out.rejected] = true
 		rec.ClassIf(over, "history: a call unpacks over the result of the previous call")
 		rec.ClassIf(sameCfg, "history: a call unpacks the configuration object of the previous call again")
@@ -153,6 +203,14 @@ func runHist(c HCase, r *runlog.R) error {
 		rec.Class("option StructTag: " + map[string]string{"": "not given", "config": "the default, explicitly", "alt": "the second tag set", "none": "a tag name no field has", "empty": "the empty tag name"}[st.Tag])
 		rec.Class("option ValidatorTag: " + map[string]string{"": "not given", "validate": "the default, explicitly", "strict": "the second tag set", "none": "a tag name no field has", "empty": "the empty tag name"}[st.VTag])
 		rec.ClassIf(st.VFirst && st.Tag != "" && st.VTag != "", "options: ValidatorTag before StructTag")
+		for _, l := range jointClasses {
+			if one.classes[l] {
+				rec.ClassIf(vs == 1, "under ValidatorTag(strict): "+l) // (catalogue types carry `strict` tags in every case)
+				rec.ClassIf(vs == 2, "under a validator tag no field has: "+l)
+				rec.ClassIf(ts == 1 && c.Alt != nil, "under StructTag(alt): "+l)
+				rec.ClassIf(ts == 2 || (ts == 1 && c.Alt == nil), "under a struct tag no field has: "+l)
+			}
+		}
 		// would the verdict of this call differ if it read the tag sets an earlier call of the history selected?
 		for _, e := range earlier {
 			if e.ts == ts && e.vs == vs {
@@ -160,16 +218,19 @@ func runHist(c HCase, r *runlog.R) error {
 			}
 			rec.ClassIf(e.vs != vs, "history: a call selects another validator tag than an earlier call")
 			rec.ClassIf(e.ts != ts, "history: a call selects another struct tag than an earlier call")
-			stale := makeView(c.T, c.Alt, ts, e.vs)
-			w := &walker{root: st.Cfg, varexp: st.VarExp}
-			w.walk(stale, out.twin.Elem(), pos{cfg: st.Cfg})
+			if e.vs == vs {
+				continue
+			}
+			_, staleReg, _ := c.dynViews(ts, e.vs)
+			w := &walker{root: st.Cfg, varexp: st.VarExp, dyn: staleReg}
+			w.walk(makeView(c.T, c.Alt, ts, e.vs), out.twin.Elem(), pos{cfg: st.Cfg})
 			rejected := false
 			for k := range w.evals {
 				if ev := &w.evals[k]; !ev.ok && !ev.soft {
 					rejected = true
 				}
 			}
-			if e.vs != vs && rejected != out.rejected {
+			if rejected != out.rejected {
 				rec.Class("history: the verdict of a call differs from the one under the validator tag an earlier call selected")
 				rec.ClassIf(out.rejected, "history: a call has to fail that would succeed under the validator tag an earlier call selected")
 				rec.ClassIf(!out.rejected, "history: a call has to succeed that would fail under the validator tag an earlier call selected")
@@ -206,14 +267,34 @@ func runHist(c HCase, r *runlog.R) error {
 func genHist(t *rapid.T) HCase {
 	cfg := tdCfg()
 	var c HCase
-	c.T = gen.GenStructTD(t, cfg, runlog.Pick(2, 3))
-	enrich(t, c.T)
+	coll := rapid.IntRange(0, 9).Draw(t, "toplevel") == 0
+	ifaces := !coll && rapid.IntRange(0, 3).Draw(t, "ifaces") == 0
 	ctr := 1000
-	wrapInline(t, c.T, &ctr)
-	assignTags(t, c.T, 1)
-	if !hasValidators(c.T) {
-		c.T.Fields = append(c.T.Fields, gen.FD{Name: "FV", Tag: "fv", T: validatedElem(t)})
-		assignTags(t, c.T, 0)
+	if coll {
+		// the Unpack target is a map, slice or array of elements that carry validators (no references: the settings rN
+		// would be entries of the target)
+		c.T = &gen.TD{Kind: rapid.SampledFrom([]string{"map", "slice", "map", "array"}).Draw(t, "topkind"), Elem: validatedElem(t)}
+		if c.T.Kind == "array" {
+			c.T.N = rapid.IntRange(1, 2).Draw(t, "n")
+		}
+		wrapInline(t, c.T, &ctr)
+		assignTags(t, c.T, 1)
+	} else {
+		c.T = gen.GenStructTD(t, cfg, runlog.Pick(2, 3))
+		enrich(t, c.T)
+		if ifaces {
+			n := 0
+			addIfaces(t, c.T, &n)
+			if n == 0 {
+				c.T.Fields = append(c.T.Fields, gen.FD{Name: "FI", Tag: "fi", T: ifaceType(t)})
+			}
+		}
+		wrapInline(t, c.T, &ctr)
+		assignTags(t, c.T, 1)
+		if !hasValidators(c.T) {
+			c.T.Fields = append(c.T.Fields, gen.FD{Name: "FV", Tag: "fv", T: validatedElem(t)})
+			assignTags(t, c.T, 0)
+		}
 	}
 	if rapid.IntRange(0, 7).Draw(t, "noalt") != 0 {
 		c.Alt = deriveAlt(t, c.T)
@@ -225,7 +306,7 @@ func genHist(t *rapid.T) HCase {
 			VTag:   rapid.SampledFrom(vtagSelectors).Draw(t, "vtag"),
 			VFirst: rapid.Bool().Draw(t, "vfirst"),
 			Sep:    rapid.IntRange(0, 3).Draw(t, "sep") == 0,
-			VarExp: rapid.IntRange(0, 3).Draw(t, "varexp") == 0,
+			VarExp: !coll && rapid.IntRange(0, 3).Draw(t, "varexp") == 0,
 		}
 		if i > 0 && rapid.IntRange(0, 2).Draw(t, "sametag") == 0 {
 			st.Tag = c.Steps[i-1].Tag // the same names, another validator tag
@@ -233,8 +314,13 @@ func genHist(t *rapid.T) HCase {
 		if rapid.IntRange(0, 3).Draw(t, "haspolicy") == 0 {
 			st.Policy = rapid.IntRange(1, 3).Draw(t, "policy")
 		}
-		if rapid.IntRange(0, 5).Draw(t, "zero") != 0 {
+		if rapid.IntRange(0, 5).Draw(t, "zero") != 0 || (ifaces && rapid.Bool().Draw(t, "ifzero")) {
 			st.Pre = gen.GenTV(t, cfg, c.T, false)
+			if ifaces {
+				tmp := &Case{Dyn: c.Dyn}
+				tmp.typedIfaces(t, cfg, c.T, st.Pre, 1)
+				c.Dyn = tmp.Dyn
+			}
 		}
 		st.Over = i > 0 && rapid.IntRange(0, 3).Draw(t, "over") == 0
 		if i > 0 && rapid.IntRange(0, 3).Draw(t, "samecfg") == 0 {
@@ -244,11 +330,23 @@ func genHist(t *rapid.T) HCase {
 		} else {
 			ts, vs := st.sels()
 			view := makeView(c.T, c.Alt, ts, vs)
-			g := &cfgGen{t: t, varexp: st.VarExp}
-			st.Cfg = gen.Obj()
-			g.fields(view, st.Cfg, st.Pre)
-			for k, ref := range g.refs {
-				st.Cfg.Put(fmt.Sprintf("r%d", k), ref)
+			var dyn []*gen.TD
+			for _, d := range c.Dyn {
+				dyn = append(dyn, makeView(d, nil, ts, vs))
+			}
+			g := &cfgGen{t: t, varexp: st.VarExp, dyn: dyn}
+			switch sh := view.Shape(); sh.Kind {
+			case "struct":
+				st.Cfg = gen.Obj()
+				g.fields(sh, st.Cfg, st.Pre)
+				for k, ref := range g.refs {
+					st.Cfg.Put(fmt.Sprintf("r%d", k), ref)
+				}
+			case "map":
+				st.Cfg = gen.Obj()
+				g.entries(sh, st.Cfg, st.Pre)
+			default:
+				st.Cfg = g.list(sh, false, st.Pre)
 			}
 		}
 		c.Steps = append(c.Steps, st)
